@@ -141,7 +141,7 @@ class Sym:
         if k == "un":
             return ("un", rv["op"], self.operand(rv["a"], depth))
         if k == "discr":
-            return ("discr", self.place(rv["p"], depth))
+            return ("discr", self.place(rv["p"], depth), rv.get("adt", ""))
         if k == "agg":
             what = rv.get("adt") or rv.get("closure") or rv["ak"]
             return (
@@ -212,6 +212,8 @@ class Sym:
             return "%s(%s)" % (short(e[2]), ", ".join(self.show(a) for a in e[3]))
         if k == "discr":
             return "discr(%s)" % self.show(e[1])
+        if k == "cb":
+            return "b%r" % (e[1],)
         if k == "agg":
             return "%s::%s(%s)" % (short(e[1]), e[2], ", ".join(self.show(a) for a in e[3]))
         return str(e)
